@@ -955,8 +955,8 @@ class Fxp():
                 self.vdtype = vdtype
         else:
             self.vdtype = original_vdtype
-            if np.issubdtype(self.vdtype, np.integer) and self.n_frac > 0:
-                self.vdtype = float  # change to float type if Fxp has fractional part
+        if self.vdtype is not None and np.issubdtype(self.vdtype, np.integer) and self.n_frac > 0:
+            self.vdtype = float  # change to float type if Fxp has fractional part
 
         # check inaccuracy
         if not np.equal(val, new_val/conv_factor).all() :
